@@ -448,4 +448,132 @@ example : clean [.optional, .dflt false, .nonOptional, .prefaultFn true] = true 
     nilOutcome false (applyAll .ptrTy {} [.prefault false, .nullish]) = .checkError ∧
     nilOutcome false (applyAll .ptrTy {} []) = .typeError := by decide
 
+/-! ## Histories of parses: one `*core.ParseContext` through a sequence of parses / the children of a container -/
+
+/-- The code as it is leaves the context as it found it. -/
+theorem step_ctx (c : Ctx) (s : Sch) (inp : In) : (ctxStep c s inp).1 = c := by
+  obtain ⟨adm, i⟩ := s
+  cases inp
+  · simp only [ctxStep, processModifiersCtx, In.isNil]
+    rcases i.dv with _ | _ <;> rcases i.df with _ | _ <;> rcases i.pv with _ | _ <;> rcases i.pf with _ | _ <;>
+      (try rfl) <;> cases i.nonOptional <;> (try rfl) <;> cases (i.optional || i.nilable) <;> (try rfl) <;>
+      cases adm <;> rfl
+  · rfl
+  · rfl
+
+/-- The context-threaded transcription computes what the context-free one (`parseBase` = `nilOutcome` for a nil
+    input) computes: the earlier theorems speak about every parse of every sequence. -/
+theorem step_eq_parseBase (c : Ctx) (s : Sch) (inp : In) :
+    (ctxStep c s inp).2 = parseBase s.admitsNil s.i inp := by
+  obtain ⟨adm, i⟩ := s
+  cases inp
+  · simp only [ctxStep, processModifiersCtx, In.isNil, parseBase, baseNil, nilOutcome]
+    rcases i.dv with _ | v1 <;> rcases i.df with _ | v2 <;> rcases i.pv with _ | v3 <;> rcases i.pf with _ | v4
+    all_goals first
+      | (cases i.nonOptional <;> cases (i.optional || i.nilable) <;> cases adm <;> cases i.refines.all id <;> rfl)
+      | (cases v3 <;> rfl) | (cases v4 <;> rfl)
+      | (cases i.hasOverwrite <;> cases v1 <;> rfl) | (cases i.hasOverwrite <;> cases v2 <;> rfl)
+  · rfl
+  · rfl
+
+theorem runSeq_cons (stp : Ctx → Sch → In → Ctx × R) (c : Ctx) (p : Sch × In) (ps : List (Sch × In)) :
+    runSeq stp c (p :: ps) =
+      ((runSeq stp (stp c p.1 p.2).1 ps).1, (stp c p.1 p.2).2 :: (runSeq stp (stp c p.1 p.2).1 ps).2) := rfl
+
+/-- After any sequence of parses the context is what the caller made it. -/
+theorem runSeq_ctx (ps : List (Sch × In)) : ∀ c : Ctx, (runSeq ctxStep c ps).1 = c := by
+  induction ps with
+  | nil => intro c; rfl
+  | cons p ps ih => intro c; rw [runSeq_cons]; simp only; rw [ih, step_ctx]
+
+/-- The results of a sequence through one context are the results of each parse on its own, through a context
+    nobody has used. -/
+theorem runSeq_results (ps : List (Sch × In)) : ∀ c : Ctx,
+    (runSeq ctxStep c ps).2 = ps.map fun p => (ctxStep {} p.1 p.2).2 := by
+  induction ps with
+  | nil => intro c; rfl
+  | cons p ps ih =>
+    intro c; rw [runSeq_cons]; simp only [List.map_cons]
+    rw [ih, step_eq_parseBase, step_eq_parseBase]
+
+/-- The statement C03 needs of a step function: whatever the context was initially and whatever parses it has
+    been through, the next parse yields what it yields through a fresh context. -/
+def ctxHistoryIndependent (stp : Ctx → Sch → In → Ctx × R) : Prop :=
+  ∀ (c0 : Ctx) (earlier : List (Sch × In)) (s : Sch) (inp : In),
+    (stp (runSeq stp c0 earlier).1 s inp).2 = (stp {} s inp).2
+
+/-- **C03 over histories of parses.** For every initial context (any field set by the caller), every sequence
+    of earlier parses through it — any schemas, any inputs, failing and succeeding prefaults and defaults in
+    between — the outcome of the next parse is the outcome through a fresh context. -/
+theorem c03_ctx_history : ctxHistoryIndependent ctxStep := by
+  intro c0 earlier s inp
+  rw [step_eq_parseBase, step_eq_parseBase]
+
+/-- The statement discriminates: a step function that parses the prefault under a flag on the context and
+    restores the flag only on success is rejected — after `String().Min(5).Prefault("ab").Parse(nil, ctx)` the
+    parse `String().Optional().Prefault("hello").Parse(nil, ctx)` yields nil instead of the prefault. -/
+theorem c03_ctx_history_discriminates : ¬ ctxHistoryIndependent stepLeaky := by
+  intro h
+  have := h {} [(⟨false, applyAll .ptrTy {} [.prefault false]⟩, .nil)]
+    ⟨false, applyAll .ptrTy {} [.optional, .prefault true]⟩ .nil
+  revert this; decide
+
+/-- One parse of a sequence as the harness describes it: type rule, nil admission, modifier history, input. -/
+structure PStep where
+  rule : RefineRule
+  admitsNil : Bool
+  h : List Op
+  inp : In
+
+def PStep.sch (p : PStep) : Sch := ⟨p.admitsNil, applyAll p.rule {} p.h⟩
+
+/-- Every result of the sequence is the documented one for that parse's own history and input. -/
+def seqMeetsSpec (c0 : Ctx) (ps : List PStep) : Bool :=
+  ((runSeq ctxStep c0 (ps.map fun p => (p.sch, p.inp))).2.zip ps).all fun rp => specStep rp.2.admitsNil rp.2.h rp.2.inp rp.1
+
+theorem specStep_parseBase (p : PStep) (hc : clean p.h = true) :
+    specStep p.admitsNil p.h p.inp (parseBase p.admitsNil (applyAll p.rule {} p.h) p.inp) = true := by
+  have hs := c03_history_partial p.rule p.admitsNil p.h hc
+  cases hi : p.inp
+  · simp only [parseBase, baseNil]
+    cases ho : nilOutcome p.admitsNil (applyAll p.rule {} p.h) <;> simp [specStep, ho] at hs ⊢ <;> exact hs
+  · rfl
+  · rfl
+
+/-- The full statement over sequences (false today for the same reason as `c03_history_full`). -/
+def c03_ctx_seq_full : Prop := ∀ (c0 : Ctx) (ps : List PStep), seqMeetsSpec c0 ps = true
+
+/-- **C03 for every sequence of parses through one context**: whatever the initial context, every parse of the
+    sequence (nil or non-nil input, any of the eight modifiers in any order on each schema) yields the outcome the
+    statement assigns to its own history and input. -/
+theorem c03_ctx_seq_partial (c0 : Ctx) (ps : List PStep) (hc : ps.all (fun p => clean p.h) = true) :
+    seqMeetsSpec c0 ps = true := by
+  unfold seqMeetsSpec
+  rw [runSeq_results]
+  induction ps with
+  | nil => rfl
+  | cons p ps ih =>
+    simp only [List.all_cons, Bool.and_eq_true] at hc
+    simp only [List.map_cons, List.zip_cons_cons, List.all_cons, Bool.and_eq_true]
+    refine ⟨?_, ih hc.2⟩
+    rw [step_eq_parseBase]
+    exact specStep_parseBase p hc.1
+
+theorem c03_ctx_seq_witness : ¬ c03_ctx_seq_full := by
+  intro hfull
+  have := hfull {} [⟨.ptrTy, false, [.prefault false], .nil⟩, ⟨.ptrTy, false, [.overwrite, .dflt false], .nil⟩]
+  revert this; decide
+
+/-- Non-vacuity: a context with the flag set by the caller, a failing prefault first, then an Optional schema with
+    a valid prefault, a defaulted one, a non-nil input and a required one. -/
+example :
+    (runSeq ctxStep { isPrefaultContext := true, reportInput := true }
+      [(⟨false, applyAll .ptrTy {} [.prefault false]⟩, .nil),
+       (⟨false, applyAll .ptrTy {} [.optional, .prefaultFn true]⟩, .nil),
+       (⟨false, applyAll .nilableFlag {} [.dflt false, .prefault true]⟩, .nil),
+       (⟨false, applyAll .nilableFlag {} [.nonOptional]⟩, .valid),
+       (⟨false, {}⟩, .nil)]).2
+      = [.err .checkError, .ok (.src (.prefaultOk true)), .ok (.src (.dflt false)), .ok .inp, .err .typeError] := by
+  decide
+
 end Gozod.C03
